@@ -147,4 +147,33 @@ example : (run true [.registerResult 1 7, .registerResult 2 7, .arrive 100 1 5 t
     .arrive 102 1 6 false true 3 1, .resultCbs 102 1 3 1]).resFired
     = [⟨0, 101, 2, 1⟩, ⟨0, 102, 3, 1⟩, ⟨2, 102, 3, 1⟩] := by decide
 
+/-! ### what "the right message" means here: (feature, counter), not the peer
+
+Counters are drawn per connection, the registry is keyed by (feature, counter): which registrations an arrival
+consumes does not depend on where it comes from. The statement identifies the message the same way ("registered on a
+local feature for a message counter … a reply or a result referencing that counter arrives for that feature … never
+for another reference or another feature"), so the following is within its letter; it is recorded because an
+application that sends the same counter to two peers gets the callback meant for one invoked by the other
+(decision and reasons: props/C14.py, level_note). -/
+
+/-- which registrations an arrival invokes, and which stay, is a function of (feature, reference, kind, accepted)
+    only — the data and the originating remote feature are handed over, never looked at -/
+theorem c14_selection_ignores_origin (b : Bool) (s : St) (a f ref : Nat) (reply acc : Bool) (d₁ s₁ d₂ s₂ : Nat) :
+    (step b s (.arrive a f ref reply acc d₁ s₁)).regs = (step b s (.arrive a f ref reply acc d₂ s₂)).regs ∧
+    (step b s (.arrive a f ref reply acc d₁ s₁)).fired.map (·.reg) =
+      (step b s (.arrive a f ref reply acc d₂ s₂)).fired.map (·.reg) := by
+  simp only [step]
+  split
+  · exact ⟨rfl, rfl⟩
+  · refine ⟨rfl, ?_⟩
+    simp only [List.map_append, List.map_map]
+    congr 1
+
+/-- the cross-peer schedule: the application asks peer A (origin 1) and peer B (origin 2), both requests carry
+    counter 4, it registers one callback per request; B's reply arrives first and invokes BOTH (each exactly once,
+    with B's data and B as origin), A's reply then invokes nothing -/
+theorem c14_cross_peer_consumption_witness :
+    (run false [.register 1 4 7, .register 1 4 8, .arrive 100 1 4 true true 22 2, .arrive 101 1 4 true true 11 1]).fired
+      = [⟨0, 100, 22, 2⟩, ⟨1, 100, 22, 2⟩] := by decide
+
 end Spine.Props.C14
